@@ -417,6 +417,9 @@ func runC10R3(c *eng.Ctx, r *eng.RuleCtx) {
 		{pkgCfg + ".(*HookConfigV1).ConvertSchedule", "ScheduleConfig", "Queue", "Queue", "main"},
 		{pkgCfg + ".(*HookConfigV1).ConvertAndCheck", "OnKubernetesEventConfig", "BindingName", "Name", "kubernetes"},
 		{pkgCfg + ".(*HookConfigV1).ConvertSchedule", "ScheduleConfig", "BindingName", "Name", "schedule"},
+		// the v0 siblings have their own documented names
+		{pkgCfg + ".(*HookConfigV0).ConvertAndCheck", "OnKubernetesEventConfig", "BindingName", "Name", "onKubernetesEvent"},
+		{pkgCfg + ".(*HookConfigV0).ConvertSchedule", "ScheduleConfig", "BindingName", "Name", "schedule"},
 	}
 	for _, s := range specs {
 		f := r.NeedFunc(s.fn)
@@ -466,6 +469,53 @@ func runC10R3(c *eng.Ctx, r *eng.RuleCtx) {
 				okRaw = g.OnlyVia(rawNode, nil, rawEmpty(false))
 			} else if g.OnlyVia(constNode, nil, effEmpty) && g.OnlyVia(constNode, func(m *eng.GNode) bool { return m == rawNode }, nil) {
 				okConst, okRaw = true, true
+			}
+		}
+		if !(okConst && okRaw) {
+			// (C) one store whose value is decided per scenario: with the raw value assumed empty everything that can
+			// reach the store is the constant, with it assumed non-empty everything is the raw value
+			var stores []*eng.GNode
+			for _, n := range g.Nodes {
+				if as, ok := n.Node.(*ast.AssignStmt); ok && len(as.Lhs) == 1 && len(as.Rhs) == 1 && eng.IsField(info, as.Lhs[0], eff) {
+					stores = append(stores, n)
+				}
+			}
+			isRaw := func(x ast.Expr) bool {
+				sx, isS := ast.Unparen(x).(*ast.SelectorExpr)
+				return isS && sx.Sel.Name == s.rawField && !eng.IsField(info, x, eff)
+			}
+			scenario := func(empty bool) func(eng.Fact) bool {
+				return func(fc eng.Fact) bool {
+					x, y, eq, ok := eng.EqAtom(fc)
+					if !ok {
+						return false
+					}
+					for i := 0; i < 2; i++ {
+						if v, isC := eng.ConstStr(info, y); isC && v == "" && isRaw(x) {
+							return eq == empty
+						}
+						x, y = y, x
+					}
+					return false
+				}
+			}
+			if len(stores) == 1 {
+				st := stores[0]
+				rhs := st.Node.(*ast.AssignStmt).Rhs[0]
+				all := func(empty bool, want func(ast.Expr) bool) bool {
+					vals, reachable, ok := reachingValues(g, info, f.Decl.Body, st, rhs, scenario(empty))
+					if !reachable || !ok || len(vals) == 0 {
+						return false
+					}
+					for _, v := range vals {
+						if v == nil || !want(v) {
+							return false
+						}
+					}
+					return true
+				}
+				okConst = all(true, func(e ast.Expr) bool { v, isC := eng.ConstStr(info, e); return isC && v == s.constVal })
+				okRaw = all(false, isRaw)
 			}
 		}
 		r.Check(okConst && okRaw, fmt.Sprintf("%s %s.%s", f.Key, s.effType, s.field), f.Decl.Pos(), fmt.Sprintf("%q when the raw %s is empty, the raw value otherwise", s.constVal, s.rawField), fmt.Sprintf("the default of %s.%s is not %q-iff-empty", s.effType, s.field, s.constVal))
